@@ -34,6 +34,7 @@ def run(model, res, tier):
                      ('R5', '#NUM! guards'), ('R6', 'WEEKDAY numbering over 0..6 x types 1..3'),
                      ('R7', 'EDATE month/year arithmetic and day clamp on the target year'), ('R8', 'text parsing formats'),
                      ('R9', 'no cache or shared state'), ('R10', 'DATEDIF y / m / ym are the component formulas with a borrow on the day'),
+                     ('R12', 'serial numbers are exact day counts: one conversion authority, converters piecewise-affine, inverse, monotone (shared with C13.R1, C13.R2)'),
                      ('R11', 'DAYS(end, start) and DATEDIF(start, end, "d") are serial(end) - serial(start), in that order (the serial is the day count, C13)')):
         res.rule(rid, txt)
     res.trusted += ['hxsa abstract interpreter with linear forms', 'python calendar module as oracle for leap years and month lengths']
@@ -48,6 +49,11 @@ def run(model, res, tier):
     H.safely(res, 'R7', 'EDATE', _edate, model, res, opaque, E)
     H.safely(res, 'R10', 'DATEDIF', _datedif, model, res, opaque, E)
     H.safely(res, 'R11', 'DAYS', _days, model, res, opaque, E)
+    from . import c13
+    um = [mm for mm in model.modules.values() if 'serialize_date' in mm.functions and 'parse_date' in mm.functions]
+    if um:
+        H.borrow(res, 'R12', 'date conversion authority', lambda tmp: c13._r1(model, tmp, c, um[-1]))
+        H.borrow(res, 'R12', 'date converters', lambda tmp: c13._r2(model, tmp, c, um[-1]))
     _formats(model, res)
     keys = []
     for n in ('DATE', 'TIME', 'YEAR', 'MONTH', 'DAY', 'HOUR', 'MINUTE', 'SECOND', 'DAYS', 'DATEDIF', 'EDATE', 'WEEKDAY', 'DATEVALUE', 'TIMEVALUE'):
@@ -294,7 +300,9 @@ def _eval_atom(v, env):
             return env[kk]
         if v.op in ('add', 'sub', 'mul', 'mod', 'floordiv') and len(v.args) == 2:
             a, b = _eval_atom(v.args[0], env), _eval_atom(v.args[1], env)
-            return {'add': a + b, 'sub': a - b, 'mul': a * b, 'mod': a % b, 'floordiv': a // b}[v.op]
+            if v.op in ('mod', 'floordiv') and b == 0:
+                raise ValueError('division by zero in %r' % (v,))
+            return {'add': lambda: a + b, 'sub': lambda: a - b, 'mul': lambda: a * b, 'mod': lambda: a % b, 'floordiv': lambda: a // b}[v.op]()
     raise ValueError('cannot evaluate %r' % (v,))
 
 
@@ -401,6 +409,8 @@ def _edate(model, res, opaque, E):
             opq[key] = par
     n = 0
     bad = []
+    ctor_bad = {}
+    n_ctor_years = [0]
     for sm in range(1, 13):
         for r in range(12):
             def mk(sm=sm, r=r):
@@ -416,6 +426,17 @@ def _edate(model, res, opaque, E):
             total = sm - 1 + r
             want_month = total % 12 + 1
             carry = total // 12
+            # every date-time the code constructs on the way (month-length helpers included) has a year the constructor accepts
+            for o in outs:
+                for ev in o.events:
+                    if ev[0] != 'datetime-ctor' or not ev[1] or not isinstance(ev[1][0], Aff):
+                        continue
+                    lo, hi = _lin_bounds(ev[1][0], ev[2])
+                    n_ctor_years[0] += 1
+                    if hi is None or hi > 9999 or (lo is not None and lo < 1):
+                        key_ = repr(ev[1][0])
+                        if key_ not in ctor_bad:
+                            ctor_bad[key_] = (sm, r, ev[1], lo, hi)
             for o in outs:
                 if o.imprecise or o.kind != 'return' or not isinstance(o.value, Atom) or o.value.op != 'datetime':
                     continue
@@ -434,6 +455,13 @@ def _edate(model, res, opaque, E):
                           'EDATE from month %d with an offset of 12q+%d months constructs (year=%s, month=%s); moving by whole months requires '
                           '(year = start year + q + %d, month = %d)' % (sm, r, y, mo, carry, wm), case={'start month': sm, 'offset residue': r}, func=f.name)
         res.soft_floor('EDATE constructor calls examined', n, 100)
+        res.ob('R5', 'EDATE', '%d date-time constructions on the way: year within what the constructor accepts' % n_ctor_years[0], not ctor_bad,
+               repr(list(ctor_bad.values())[:1]))
+        for key_, (sm, r, args_, lo, hi) in sorted(ctor_bad.items())[:1]:
+            res.violation('R5', 'function:EDATE:intermediate-date-out-of-range', m.where(f),
+                          'EDATE (start month %d, offset 12q+%d) constructs datetime(%s) where the guards on that path only bound the year by '
+                          '[%s, %s]: for a target year of 9999 the constructor raises and the formula gives #ERROR! instead of the date'
+                          % (sm, r, ', '.join(repr(a) for a in args_), lo, hi), case={'start month': sm, 'offset residue': r}, func=f.name)
 
 
 def _formats(model, res):
@@ -518,7 +546,15 @@ def _datedif(model, res, opaque, E):
                         continue
                     # feasibility of the day decisions over the calendar domain (days are 1..31; on the 29-February trace the start
                     # day is 29 and, when the end month is February too, the end day is at most 28)
-                    box = {'sd': [1, 31], 'ed': [1, 31]}
+                    import calendar as _cal
+                    box = {'sd': [1, _cal.monthrange(2000, sm)[1]], 'ed': [1, _cal.monthrange(2000, em)[1]]}      # 29 for February
+                    for (t, alt, s) in o.notes:
+                        # a leap-year decision about the end / start year limits February
+                        if isinstance(s, tuple) and s and s[0] == 'leap' and not alt:
+                            if 'ey' in s[1] and em == 2:
+                                box['ed'][1] = 28
+                            if 'sy' in s[1] and sm == 2:
+                                box['sd'][1] = 28
                     if feb29:
                         box['sd'] = [29, 29]
                         if em == 2:
@@ -639,3 +675,38 @@ def _days(model, res, opaque, E):
             res.violation('R11', 'function:DATEDIF:unit-d', m.where(f),
                           'DATEDIF(start, end, "d") with start < end must be the whole number of days serial(end) - serial(start); got %r'
                           % (o.value,), func=f.name)
+
+
+def _lin_bounds(aff, notes):
+    """(lo, hi) of the integer linear form ``aff`` implied by the affine decisions of the trace that compare the same combination
+    of variables with a constant (None = unbounded)."""
+    import math
+    lo = hi = None
+    cs = dict(aff.coeffs)
+    if not cs:
+        return aff.const, aff.const
+    for (t, alt, s_) in notes:
+        if not isinstance(s_, AffCmp) or dict(s_.coeffs) != cs:
+            # the same combination scaled by -1
+            if isinstance(s_, AffCmp) and dict((k_, -v_) for k_, v_ in s_.coeffs.items()) == cs:
+                op = {'lt': 'gt', 'le': 'ge', 'gt': 'lt', 'ge': 'le', 'eq': 'eq', 'ne': 'ne'}[s_.op]
+                const = -s_.const
+            else:
+                continue
+        else:
+            op, const = s_.op, s_.const
+        if not alt:
+            op = {'lt': 'ge', 'le': 'gt', 'gt': 'le', 'ge': 'lt', 'eq': 'ne', 'ne': 'eq'}[op]
+        # L + const <op> 0   =>   L <op> -const ; aff = L + aff.const
+        b = -const + aff.const
+        if op == 'lt':
+            hi = min(hi, math.ceil(b) - 1) if hi is not None else math.ceil(b) - 1
+        elif op == 'le':
+            hi = min(hi, math.floor(b)) if hi is not None else math.floor(b)
+        elif op == 'gt':
+            lo = max(lo, math.floor(b) + 1) if lo is not None else math.floor(b) + 1
+        elif op == 'ge':
+            lo = max(lo, math.ceil(b)) if lo is not None else math.ceil(b)
+        elif op == 'eq':
+            lo = hi = b
+    return lo, hi
